@@ -560,6 +560,9 @@ struct C18 : Scenario {
 			m.os = rng.chance(1, 2) ? 'U' : 'M';
 			// the OS byte is archive data too (shown in the permission column when no permissions are recorded)
 			if (rng.chance(1, 4)) m.os = (uint8_t) (rng.chance(1, 2) ? 0x7f + rng.below(129) : 1 + rng.below(255));
+			// (OS-9/68k level-2 headers are two bytes longer than they say: with a generated header of the stated length the
+			// first two data bytes would be taken for header bytes and 'p' would print part of the next header)
+			if (m.os == 'K' && m.level == 2) m.os = 'k';
 			Bytes name = hostile_str(rng, 10, false), dir = hostile_str(rng, 8, false), target = hostile_str(rng, 10, true);
 			for (auto &c : target) if (c == '|') c = 'z';
 			std::string path = rng.chance(1, 2) ? to_str(dir) + "/" : "";
@@ -577,6 +580,9 @@ struct C18 : Scenario {
 				}
 			} else m.method = "-lhd-";
 			int perms = m.kind == 'l' ? 0120777 : (rng.chance(1, 2) ? (m.kind == 'd' ? 040755 : 0100644) : -1);
+			// the mode word is archive data as well: any 16 bits (file-type values no tool writes included), except those that
+			// would turn the entry into a symbolic link
+			if (m.kind != 'l' && perms >= 0 && rng.chance(1, 3)) { perms = (int) rng.below(65536); if ((perms & 0170000) == 0120000) perms ^= 0020000; }
 			encode_names(m, path, m.kind == 'l' ? m.gname + "|" + m.gtarget : m.gname);
 			encode_unix_meta(m, perms, perms >= 0 ? 1000 : -1, 1000, 1000000000 + (int64_t) rng.below(1000000), 0, false);
 			if (m.level >= 1 && rng.chance(1, 3)) { ExtHdr e; e.type = 0x53; e.data = hostile_str(rng, 8, true); m.ext.push_back(e); }
